@@ -67,7 +67,11 @@ def _norm_arg(a):
 def compare_dumps(sf_out, ref_out):
     try:
         d_sf = json.loads(sf_out["d"])
+        if not isinstance(d_sf, dict) or not {"argv", "stdin", "env"} <= set(d_sf):
+            raise ValueError("not a dump object")
     except (KeyError, TypeError, ValueError) as e:
+        # whatever StreamFlow did differently (extra output in the captured stream, truncated file ...) is a
+        # disagreement, not a harness problem: the reference produced a readable dump from the same document
         return "dump-unreadable", f"StreamFlow's output object has no readable dump: {e}: {str(sf_out)[:300]}"
     d_ref = json.loads(ref_out["d"])
     a_sf = [_norm_arg(a) for a in d_sf["argv"]]
@@ -138,6 +142,24 @@ def measure(case) -> dict:
         _strings(list(env.values()), strs)
         if any(set(v) & set('$`"\\') for v in env.values()):
             labels.add("env-value-with-$`\"\\")
+    def floats(o):
+        if isinstance(o, float):
+            yield o
+        elif isinstance(o, list):
+            for x in o:
+                yield from floats(x)
+        elif isinstance(o, dict):
+            for x in o.values():
+                yield from floats(x)
+
+    fl = list(floats(job)) + [d["default"] for d in doc["inputs"].values() if isinstance(d.get("default"), float)]
+    for x in fl:
+        labels.add("float:" + ("zero" if x == 0 else "tiny<1e-6" if abs(x) < 1e-6 else "huge>=1e16" if abs(x) >= 1e16
+                               else "integral" if x.is_integer() else "fraction"))
+        if x < 0:
+            labels.add("float:negative")
+    if any(isinstance(d.get("default"), float) for d in doc["inputs"].values()):
+        labels.add("float:default")
     meta = False
     for v in strs:
         if v == "":
